@@ -12,7 +12,7 @@ RULE = ("Hypothesis-generated parameters (exponential a in (0.01,10]; Poisson me
 ASSUMPTIONS = ["tolerance for the two series-normalised laws: relative error <= 1.05*tail/normaliser + 1e-11 where tail = the "
                "exact sum of all series terms from the first term below 1e-6 onwards (whatever a truncation at 1e-6 may "
                "drop, whether or not the first small term itself is kept); 1e-11 for the closed forms"]
-BUDGET = {"quick": (16, 150), "thorough": (16, 2000)}
+BUDGET = {"quick": (16, 150), "thorough": (16, 6000)}
 
 
 def strategy(tier):
